@@ -1,4 +1,5 @@
 """C04 - execution yields the specified result for every valid operation."""
+import json
 import multiprocessing as mp
 import random
 
@@ -75,6 +76,62 @@ def compare(expected, got, arguments=True, ignore_below=()):
 def _short(x):
     s = repr(x)
     return s if len(s) < 300 else s[:300] + "..."
+
+
+def type_resolution_contract(run):
+    from py_gql import build_schema, process_graphql_query
+    from py_gql.execution import BlockingExecutor, Executor
+    sdl = "interface Named { name: String } union Pet = Dog | Cat type Dog implements Named { name: String barks: Int } type Cat implements Named { name: String lives: Int } " \
+          "type Query { byName: [Named] byObject: [Named] byDefault: [Pet] byClass: [Pet] wrong: Named }"
+
+    class Dog:
+        name, barks = "d", 1
+
+    class Cat:
+        name, lives = "c", 9
+    query = "{ byName { __typename name ... on Dog { barks } ... on Cat { lives } } byObject { __typename name } byDefault { __typename ... on Dog { barks } ... on Cat { lives } } " \
+            "byClass { __typename ... on Cat { lives } } wrong { name } }"
+    want = {"byName": [{"__typename": "Dog", "name": "d", "barks": 1}, {"__typename": "Cat", "name": "c", "lives": 9}],
+            "byObject": [{"__typename": "Cat", "name": "c"}, {"__typename": "Dog", "name": "d"}],
+            "byDefault": [{"__typename": "Dog", "barks": 1}, {"__typename": "Cat", "lives": 9}, {"__typename": "Cat", "lives": 7}],
+            "byClass": [{"__typename": "Cat", "lives": 9}, {"__typename": "Dog"}], "wrong": None}
+    n = 0
+    for label, ex in (("blocking-executor", BlockingExecutor), ("executor-blocking", Executor)):
+        for derived in (False, True):
+            schema = build_schema(sdl)
+            named = schema.get_type("Named")
+            dog_t, cat_t = schema.get_type("Dog"), schema.get_type("Cat")
+            mode = {"m": "name"}
+            named.resolve_type = lambda value, ctx, info: ("Nope" if value == "bad" else
+                                                           (type(value).__name__ if mode["m"] == "name" else {"Dog": dog_t, "Cat": cat_t}[type(value).__name__]))
+            root = {"byName": [Dog(), Cat()], "byObject": [Cat(), Dog()], "byDefault": [{"__typename__": "Dog", "barks": 1}, {"__typename__": "Cat", "lives": 9},
+                    type("Other", (), {"__typename__": "Cat", "lives": 7})()], "byClass": [Cat(), Dog()], "wrong": "bad"}
+            if derived:
+                schema = schema.clone()          # (a type resolver written against the source's type objects keeps working on a copy)
+            n += 1
+            w = {"schema": sdl, "query": query, "config": label, "cloned": derived}
+            got = {}
+            try:
+                # byName with names, byObject with type objects: two requests, the resolver's mode switched in between
+                r1 = process_graphql_query(schema, "{ byName { __typename name ... on Dog { barks } ... on Cat { lives } } byDefault { __typename ... on Dog { barks } ... on Cat { lives } } "
+                                                   "byClass { __typename ... on Cat { lives } } }", root=root, executor_cls=ex)
+                mode["m"] = "object"
+                r2 = process_graphql_query(schema, "{ byObject { __typename name } }", root=root, executor_cls=ex)
+                got = dict(r1.data or {})
+                got.update(r2.data or {})
+                errs = list(r1.errors or []) + list(r2.errors or [])
+            except Exception as e:
+                run.violation("execute:abstract-type-resolution", "resolving abstract types made the request raise %r" % (e,), dict(w, exc=type(e).__name__), True)
+                continue
+            plain_ = json.loads(json.dumps(got))
+            expect = {k: v for k, v in want.items() if k != "wrong"}
+            if errs or plain_ != expect:
+                bad = [k for k in expect if plain_.get(k) != expect[k]]
+                run.violation("execute:abstract-type-resolution", "abstract type resolution differs from the documented order at %r: %r (errors %r)"
+                              % (bad, {k: plain_.get(k) for k in bad}, [str(e) for e in errs][:2]), dict(w, differs_at=bad), True)
+    run.cov["bounded_functions"].append({"functions": ["Executor.resolve_type"], "bound": "type resolver answering by name / by object type, __typename__ key / attribute, "
+                                                                                       "class name; source and cloned schema; 2 executors"})
+    return n
 
 
 def default_resolver_contract(run):
@@ -190,6 +247,9 @@ def check(tier, seed):
                     run.violation("execute:independent-of-earlier-requests", "after earlier requests on the same schema object: " + bad[1],
                                   {"query": query, "world": wname, "history": [a[0], b[0]]}, True)
     n += default_resolver_contract(run)
+    # ResolveAbstractType: a type resolver of the abstract type decides (answering with a type name or the object type itself), otherwise the value's
+    # __typename__ (key or attribute), otherwise the name of its Python class
+    n += type_resolution_contract(run)
     # GetOperation: the operation name selects among the operations, and must name one of them - also when the document has only one
     for query, opname in [("query A { count }", "A"), ("query A { count }", "Nope"), ("{ count }", "X"), ("{ count }", None), ("query A { count } query B { me { name } }", "B"),
                           ("query A { count } query B { me { name } }", None), ("query A { count } query B { me { name } }", "C"), ("mutation M { d }", "Other"),
